@@ -349,6 +349,13 @@ func (p *Prog) flatten() {
 		ssa.CutNoReturn(f, func(c *ssa.Call) bool { return isNoReturn(c) })
 	}
 	p.Flat = ssa.FlattenAll(tops, isHelper)
+	/* Variables kept in memory only because a function literal reads them
+	(or did, before it was folded in) become values. */
+	for _, f := range tops {
+		if !isHelper(f) && nil == f.Parent() {
+			ssa.LiftCells(f)
+		}
+	}
 	/* Loops over small literal tables are unrolled; calls through the
 	table's function values become static, and are folded in turn. */
 	for round := 0; round < 3; round++ {
